@@ -20,7 +20,7 @@
    packets are dropped (KCP retransmits them) and an idle attached carrier is closed. KCP's ARQ and smux above the
    demultiplexing ("whose byte stream continues" as bytes) remain libraries: observed through the real Accept path
    by lib/checks/c05.py (op move) and by C01's rig, hypothesis in C01. *)
-From Coq Require Import List NArith ZArith Bool Arith.
+From Coq Require Import List NArith ZArith Bool Arith Lia.
 From Snow Require Import Lib.Wire Model.Encap Proofs.EncapProofs Model.CarrierLayer Proofs.CarrierProofs Proofs.CarrierOnceProofs Proofs.CarrierFragProofs.
 From Snow Require Import Proofs.CarrierMultiProofs Proofs.PacketPathProofs Proofs.PacketPathMultiProofs.
 From Snow Require Import Model.GoHeap Model.ClientMap Proofs.QueueOutProofs Model.CarrierTimed Proofs.CarrierTimedProofs Proofs.CarrierQueueProofs.
@@ -255,6 +255,13 @@ Theorem C05_session_within_retention : forall timeout a ops,
   acc_key a (tacc t) = cons_key a (tcons t) ++ out_q (tcm t) a.
 Proof. intros timeout a ops H. destruct (trun_kinv timeout a ops H) as [K1 K2]. split; assumption. Qed.
 
+(* A schedule-level sufficient condition: all clock readings of the schedule lie in a window shorter than the retention
+   (whatever the carriers do inside it: sequential, overlapping, idle gaps up to just under the retention) — then the
+   hypothesis above holds for EVERY session, so no session loses a queued packet or a carrier to an expiry. *)
+Theorem C05_window_below_retention_is_fresh : forall timeout t0 a ops,
+  Forall (in_window timeout t0) ops -> fresh_from timeout a tinit ops.
+Proof. intros timeout t0 a ops. apply window_is_fresh_from_start. Qed.
+
 Theorem C05_session_one_queue : forall timeout a ops q q',
   fresh_from timeout a tinit ops -> tied (trun timeout ops) q a -> tied (trun timeout ops) q' a -> q = q'.
 Proof. intros timeout a ops q q' H. apply one_queue; [apply trun_ginv | apply trun_kinv; exact H]. Qed.
@@ -315,6 +322,12 @@ Proof.
   - intros x Hin _. vm_compute in Hin. destruct Hin as [<-|[<-|[]]]; vm_compute; eexists; reflexivity.
   - vm_compute. repeat split.
 Qed.
+
+(* the hypothesis of C05_window_below_retention_is_fresh is satisfiable: a schedule with an idle gap of 59.9 s *)
+Example C05_window_example :
+  Forall (in_window 60000 100) [T_New; T_Recv 0 (TOKEN ++ [1;2;3;4;5;6;7;8]) 100; T_WriteTo [1;2;3;4;5;6;7;8] [70] 101; T_Close 0;
+                                T_Sweep 30100; T_Sweep 60000; T_New; T_Recv 1 (TOKEN ++ [1;2;3;4;5;6;7;8]) 60050; T_Send 1 60099].
+Proof. repeat constructor; cbn; lia. Qed.
 
 (* ... and beyond the retention: the same session with the sweeper finding the record idle for exactly the timeout:
    the waiting packet is lost with the closed queue, the new carrier gets a new queue (identity 1) and is written
